@@ -1424,4 +1424,199 @@ theorem afterEpochEnd_SB (s s' : State) (e : Nat) (hg : GInv s) (hs : SStruct s)
           rw [hv, (atEpochEnd_static v).1]; simp only
           rw [b3]; exact hstat.recs st0 b1
 
+
+theorem activateDue_exact (e : Nat) : ∀ (l : List Stream) (s s1 : State), activateDue e l s = .ok s1 →
+    s1.streams = s.streams ∧ s1.ptrs = s.ptrs ∧ s1.now = s.now ∧
+    (∀ x, x ∈ s1.active.ids → x ∈ s.active.ids ∨ ∃ st ∈ l, st.id = x ∧ st.epochId = e) ∧
+    (∀ x, x ∈ s.active.ids → x ∈ s1.active.ids) := by
+  intro l
+  induction l with
+  | nil =>
+    intro s s1 h
+    simp only [activateDue, Except.ok.injEq] at h
+    subst h
+    exact ⟨rfl, rfl, rfl, fun x hx => Or.inl hx, fun x hx => hx⟩
+  | cons st rest ih =>
+    intro s s1 h
+    unfold activateDue at h
+    by_cases hc : (st.epochId == e && decide (st.start ≤ s.now)) = true
+    · rw [if_pos hc] at h
+      cases hd : Refs.del s.upcoming st.start st.id with
+      | none => simp [hd] at h
+      | some u =>
+        simp only [hd] at h
+        cases hf : Refs.add s.active st.start st.id with
+        | none => simp [hf] at h
+        | some a =>
+          simp only [hf] at h
+          obtain ⟨r1, r2, r3, r4, r5⟩ := ih _ _ h
+          have hep : st.epochId = e := by simp at hc; exact hc.1
+          refine ⟨r1, r2, r3, ?_, ?_⟩
+          · intro x hx
+            rcases r4 x hx with h1 | ⟨y, hy, hy2⟩
+            · rcases (Refs.add_mem hf x).1 h1 with h2 | h2
+              · exact Or.inl h2
+              · exact Or.inr ⟨st, List.mem_cons_self, h2.symm, hep⟩
+            · exact Or.inr ⟨y, List.mem_cons_of_mem _ hy, hy2⟩
+          · intro x hx
+            exact r5 x ((Refs.add_mem hf x).2 (Or.inl hx))
+    · rw [if_neg hc] at h
+      obtain ⟨r1, r2, r3, r4, r5⟩ := ih _ _ h
+      refine ⟨r1, r2, r3, ?_, r5⟩
+      intro x hx
+      rcases r4 x hx with h1 | ⟨y, hy, hy2⟩
+      · exact Or.inl h1
+      · exact Or.inr ⟨y, List.mem_cons_of_mem _ hy, hy2⟩
+
+/-- the value `UpdateStreamAtEpochStart` writes -/
+def started (st : Stream) : Stream :=
+  { st with epochCoins := Coins.quo (Coins.sub st.coins st.distributed) (st.numEpochs - st.filled),
+            ecEmpty := (Coins.sub st.coins st.distributed).isZero }
+
+theorem startStreams_exact : ∀ (l : List Stream) (s s' : State), SStruct s → (l.map (·.id)).Nodup →
+    (∀ st ∈ l, getS s.streams st.id = some st) → startStreams l s = .ok s' →
+    s'.ptrs = s.ptrs ∧ s'.active = s.active ∧ s'.now = s.now ∧
+    (∀ x, x ∉ l.map (·.id) → getS s'.streams x = getS s.streams x) ∧
+    (∀ st ∈ l, getS s'.streams st.id = some (started st) ∧ st.numEpochs - st.filled ≠ 0 ∧ ∀ i, amt st.distributed i ≤ amt st.coins i) := by
+  intro l
+  induction l with
+  | nil =>
+    intro s s' _ _ _ h
+    simp only [startStreams, Except.ok.injEq] at h
+    subst h
+    exact ⟨rfl, rfl, rfl, fun _ _ => rfl, by simp⟩
+  | cons st rest ih =>
+    intro s s' hs hnd hall h
+    have hnd0 : (st.id :: rest.map (·.id)).Nodup := hnd
+    obtain ⟨hn1, hn2⟩ := List.nodup_cons.1 hnd0
+    unfold startStreams at h
+    cases hsub : Coins.sub? st.coins st.distributed with
+    | none => simp [hsub] at h
+    | some remain =>
+      simp only [hsub] at h
+      obtain ⟨hr, hle⟩ := sub?_some hsub
+      by_cases hre : st.numEpochs - st.filled = 0
+      · rw [if_pos hre] at h; simp at h
+      · rw [if_neg hre] at h
+        have hget := hall st List.mem_cons_self
+        have hstarted : ({ st with epochCoins := Coins.quo remain (st.numEpochs - st.filled), ecEmpty := remain.isZero } : Stream) = started st := by
+          unfold started; rw [hr]
+        rw [hstarted] at h
+        have hidst : (started st).id = st.id := rfl
+        obtain ⟨w1, _, _⟩ := write_same s hs st (started st) (by rw [hidst]; exact hget) rfl rfl
+        have hall' : ∀ y ∈ rest, getS (setStream s (started st)).streams y.id = some y := by
+          intro y hy
+          have hne : y.id ≠ st.id := fun he => hn1 (by rw [← he]; exact List.mem_map_of_mem (f := (·.id)) hy)
+          rw [getS_setStream_ne s hs (started st) ⟨st, by rw [hidst]; exact hget⟩ y.id (by rw [hidst]; exact hne)]
+          exact hall y (List.mem_cons_of_mem _ hy)
+        obtain ⟨r1, r2, r3, r4, r5⟩ := ih _ _ w1 hn2 hall' h
+        refine ⟨r1, r2, r3, ?_, ?_⟩
+        · intro x hx
+          simp only [List.map_cons, List.mem_cons, not_or] at hx
+          rw [r4 x hx.2]
+          exact getS_setStream_ne s hs (started st) ⟨st, by rw [hidst]; exact hget⟩ x (by rw [hidst]; exact hx.1)
+        · intro y hy
+          rcases List.mem_cons.1 hy with h1 | h1
+          · rw [h1]
+            refine ⟨?_, hre, hle⟩
+            rw [r4 st.id hn1]
+            have := getS_setStream_eq s hs (started st) ⟨st, by rw [hidst]; exact hget⟩
+            rw [hidst] at this; exact this
+          · exact r5 y h1
+
+
+theorem started_strong (st : Stream) (p : Pointer) (htw : st.totalWeight = totalWeightOf st.recs)
+    (hre : st.numEpochs - st.filled ≠ 0) (hle : ∀ i, amt st.distributed i ≤ amt st.coins i) (i : Nat) :
+    amt (started st).distributed i + pendId p (started st) i +
+      ((started st).numEpochs - (started st).filled - 1) * sharesOf (started st) (started st).recs i ≤ amt (started st).coins i := by
+  have hall := sharesOf_all_le (started st) (by show st.totalWeight = totalWeightOf st.recs; exact htw) i
+  have hpend := pendId_le_all p (started st) i
+  have hec : amt (started st).epochCoins i = (amt st.coins i - amt st.distributed i) / (st.numEpochs - st.filled) := by
+    show amt (Coins.quo (Coins.sub st.coins st.distributed) (st.numEpochs - st.filled)) i = _
+    rw [amt_quo, amt_sub]
+  rw [hec] at hall
+  show amt st.distributed i + pendId p (started st) i + (st.numEpochs - st.filled - 1) * sharesOf (started st) (started st).recs i ≤ amt st.coins i
+  generalize sharesOf (started st) (started st).recs i = A at *
+  generalize pendId p (started st) i = P at *
+  have hmul : (st.numEpochs - st.filled) * A ≤ (st.numEpochs - st.filled) * ((amt st.coins i - amt st.distributed i) / (st.numEpochs - st.filled)) :=
+    Nat.mul_le_mul_left _ hall
+  have hdiv := Nat.mul_div_le (amt st.coins i - amt st.distributed i) (st.numEpochs - st.filled)
+  have hsplit : (st.numEpochs - st.filled) * A = A + (st.numEpochs - st.filled - 1) * A := by
+    have : st.numEpochs - st.filled = (st.numEpochs - st.filled - 1) + 1 := by omega
+    rw [this, Nat.add_mul, Nat.one_mul, Nat.add_comm]
+    simp
+  have := hle i
+  omega
+
+theorem beforeEpochStart_SB (s s' : State) (e : Nat) (hs : SStruct s) (hstat : SStat s) (hsb : SB s)
+    (h : streamerBeforeEpochStart s e = .ok s') : SB s' ∧ SStat s' := by
+  unfold streamerBeforeEpochStart at h
+  cases ha : activateDue e (upcomingStreams s) s with
+  | error x => simp [ha] at h
+  | ok s1 =>
+    simp only [ha] at h
+    obtain ⟨a1, a2, _, a4, a5⟩ := activateDue_exact e _ _ _ ha
+    obtain ⟨hs1, _, _, _⟩ := activateDue_spec e _ _ _ hs ha
+    obtain ⟨gi1, gi2⟩ := activeStreamsFor_good s1 hs1 e
+    obtain ⟨b1, b2, _, b4, b5⟩ := startStreams_exact _ _ _ hs1 gi1 (fun st hst => (gi2 st hst).1) h
+    obtain ⟨hs', _, _, _⟩ := startStreams_spec _ _ _ hs1 gi1 (fun st hst => (gi2 st hst).1) h
+    -- upcoming streams handed to activateDue are stored copies
+    have hup : ∀ st ∈ upcomingStreams s, getS s.streams st.id = some st := by
+      obtain ⟨_, n2, _⟩ := List.nodup_append.1 hs.nodup
+      exact fun st hst => ((streamsOf_spec s.streams hs.sid s.upcoming.ids n2).2 st hst).1
+    have classify : ∀ st' ∈ s'.streams,
+        (st' ∈ s.streams ∧ st'.id ∉ (activeStreamsFor s1 e).map (·.id)) ∨
+        (∃ st ∈ activeStreamsFor s1 e, st ∈ s.streams ∧ st' = started st ∧ st.numEpochs - st.filled ≠ 0 ∧ ∀ i, amt st.distributed i ≤ amt st.coins i) := by
+      intro st' hm
+      have hget' := getS_of_mem hs'.sid hm
+      by_cases hx : st'.id ∈ (activeStreamsFor s1 e).map (·.id)
+      · right
+        obtain ⟨st, hst, hid⟩ := List.mem_map.1 hx
+        obtain ⟨c1, c2, c3⟩ := b5 st hst
+        rw [hid, hget'] at c1
+        exact ⟨st, hst, by rw [← a1]; exact mem_of_getS (gi2 st hst).1, Option.some.inj c1, c2, c3⟩
+      · left
+        have := b4 _ hx
+        rw [hget', a1] at this
+        exact ⟨mem_of_getS this.symm, hx⟩
+    constructor
+    · intro st' hm i
+      rcases classify st' hm with ⟨c1, c2⟩ | ⟨st, hst, c1, c2, c3, c4⟩
+      · unfold SBst
+        rw [b2]
+        by_cases hact : st'.id ∈ s1.active.ids
+        · rw [if_pos hact]
+          -- it was active before: otherwise it has just been activated, has epoch e, and would be in the list
+          have hact0 : st'.id ∈ s.active.ids := by
+            rcases a4 _ hact with h1 | ⟨y, hy, hy1, hy2⟩
+            · exact h1
+            · exfalso
+              have hgy := hup y hy
+              rw [hy1, getS_of_mem hs.sid c1] at hgy
+              have : st' = y := Option.some.inj hgy
+              apply c2
+              exact mem_activeStreamsFor s1 hs1 e st' (by rw [a1]; exact c1) hact (by rw [this]; exact hy2)
+          have hne : st'.epochId ≠ e := fun he => c2 (mem_activeStreamsFor s1 hs1 e st' (by rw [a1]; exact c1) hact he)
+          have := hsb st' c1 i
+          unfold SBst at this; rw [if_pos hact0] at this
+          unfold ptrOfEpoch at *
+          rw [b1, a2]; exact this
+        · rw [if_neg hact]
+          have hact0 : st'.id ∉ s.active.ids := fun hx => hact (a5 _ hx)
+          have := hsb st' c1 i
+          unfold SBst at this; rw [if_neg hact0] at this; exact this
+      · have hact : st'.id ∈ s'.active.ids := by
+          rw [b2, c2]; exact (gi2 st hst).2
+        unfold SBst; rw [if_pos hact, c2]
+        exact started_strong st _ (hstat.tw st c1) c3 c4 i
+    · constructor
+      · intro st' hm
+        rcases classify st' hm with ⟨c1, _⟩ | ⟨st, _, c1, c2, _, _⟩
+        · exact hstat.tw st' c1
+        · rw [c2]; exact hstat.tw st c1
+      · intro st' hm
+        rcases classify st' hm with ⟨c1, _⟩ | ⟨st, _, c1, c2, _, _⟩
+        · exact hstat.recs st' c1
+        · rw [c2]; exact hstat.recs st c1
+
 end DymVerif.Incent
